@@ -32,7 +32,7 @@ def roundLog2 (q : Nat) : Nat :=
   let k := Nat.log2 q
   if q * q ≥ 2 ^ (2 * k + 1) then k + 1 else k
 
-/-- `Parameters.LogQi` -/
+/-- `Parameters.LogQi` (no longer used by the digit counts since fix C04-1) -/
 def logQi (qs : List Nat) : List Nat := qs.map roundLog2
 
 /-- `Parameters.BaseRNSDecompositionVectorSize(levelQ, levelP)`; `nP = levelP + 1`
@@ -40,9 +40,17 @@ def logQi (qs : List Nat) : List Nat := qs.map roundLog2
 def baseRNSDecompositionVectorSize (levelQ nP : Nat) : Nat :=
   if nP = 0 then levelQ + 1 else (levelQ + nP) / nP
 
+/-- `bits.Len64(q)`: the bit length of `q` (`0` for `q = 0`) -/
+def bitLen (q : Nat) : Nat := if q = 0 then 0 else Nat.log2 q + 1
+
 /-- one entry of `Parameters.BaseTwoDecompositionVectorSize`: the number of base-`2^w` digits the
-    code allots to the prime `q` -/
-def baseTwoDigits (q w : Nat) : Nat := (roundLog2 q + w - 1) / w
+    code allots to the prime `q`: `⌈bitlen(q)/w⌉` (fix C04-1; before the fix it was
+    `⌈round(log2 q)/w⌉`, see `baseTwoDigitsRoundLog2`). -/
+def baseTwoDigits (q w : Nat) : Nat := (bitLen q + w - 1) / w
+
+/-- the PRE-FIX digit count `⌈round(log2 q)/w⌉` (kept only for the regression theorems: it drops the
+    top bit of the residues for primes in `(2^k, 2^{k+1/2})` when `w ∣ k`) -/
+def baseTwoDigitsRoundLog2 (q w : Nat) : Nat := (roundLog2 q + w - 1) / w
 
 /-- `Parameters.BaseTwoDecompositionVectorSize(levelQ, levelP, w)`: one entry per prime of the FULL
     chain `qs` (the code ignores `levelQ`); all ones if `w = 0` or `levelP > 0`. -/
